@@ -302,6 +302,14 @@ func (o *Obligation) SMT(withModel bool, forCVC5 bool) string {
 		sort.Strings(fnames)
 		for _, n := range fnames {
 			sig := d.funs[n]
+			if strings.HasPrefix(n, "dec0:encsnap:") {
+				en := strings.TrimPrefix(n, "dec0:")
+				if _, ok := d.funs[en]; !ok {
+					d.funs[en] = []string{SInt, SStr}
+					fnames = append(fnames, en)
+				}
+				continue
+			}
 			if strings.HasPrefix(n, "enc:") || strings.HasPrefix(n, "encsnap:") {
 				var vars []*Term
 				for i, srt := range sig[:len(sig)-1] {
